@@ -17,7 +17,7 @@ def obligations(tier):
     for f in ("cycle_sm", "cycle_ssc"):
         if tier == "quick":
             pfxs = (0, 5) if f == "cycle_sm" else (0, 4, 6)
-            k1s = (1, 2, 3, 4)
+            k1s = (1, 2, 3, 4) if f == "cycle_sm" else (1, 2, 3, 4, 10)
         else:
             pfxs, k1s = range(7), range(11)
         for pfx in pfxs:
